@@ -294,6 +294,54 @@ func (r *runner) evidenceBundles() {
 			}
 		}
 	}
+	// width sweep: every byte-string field of every mechanism at EVERY length 0..2L+2 (L = genuine length, at
+	// least 16) with a value whose top byte is non-zero / all ones, the other fields genuine - for every secure
+	// messaging cipher of Chip Authentication (3DES: key 16 / block 8; AES-128/192/256: key 16/24/32, block 16),
+	// so that a bound taken from the wrong object (key vs block vs field size) is crossed
+	widthSess := []string{"ca", "ca3", "ca192", "ca256", "cam", "aarsa", "aaec", "full"}
+	if c.Thorough() {
+		widthSess = append(widthSess, "cambp", "aaecbp")
+	}
+	for _, sn := range widthSess {
+		s := getSess(sn)
+		if s == nil {
+			c.HarnessError("session %s unavailable", sn)
+			continue
+		}
+		g := genuineBundle(s)
+		eps := both(sn)
+		mechs := []*[]kv{&g.cam, &g.ca, &g.aa}
+		for mi, mp := range mechs {
+			for fi := range *mp {
+				raw := (*mp)[fi].v
+				if len(raw) == 0 || raw[0]>>5 != 2 {
+					continue // not a byte string
+				}
+				L := len(itemBytes(raw))
+				if L < 16 {
+					L = 16
+				}
+				if L > 80 {
+					L = 80 // signatures / public keys: lengths around the genuine one are in the product above
+				}
+				for n := 0; n <= 2*L+2; n++ {
+					if !c.Mine() {
+						continue
+					}
+					for _, fill := range []byte{0x00, 0xFF} {
+						v := bytesOf(fill, n)
+						if n > 0 && fill == 0 {
+							v[0] = 0x01
+						}
+						nb := bundleT{cam: cloneKV(g.cam), ca: cloneKV(g.ca), aa: cloneKV(g.aa)}
+						tgt := []*[]kv{&nb.cam, &nb.ca, &nb.aa}[mi]
+						(*tgt)[fi].v = cbBytes(v)
+						run(eps, nb, fmt.Sprintf("evidence-width:%s/%s/%d", sn, (*mp)[fi].k, n))
+					}
+				}
+			}
+		}
+	}
 	// mechanisms present as empty maps / wrong types
 	full := getSess("full")
 	g := genuineBundle(full)
@@ -310,7 +358,7 @@ func (r *runner) evidenceBundles() {
 			}
 		}
 	}
-	c.SecBound(sec, "Chip Authentication: full product of 4 fields x {genuine, absent, empty, null, +1 byte, leading zero, all-zero, all-FF, 1024, 1025 bytes} (+ counter one byte longer than the cipher block, one-byte counter) on sessions ca and full; PACE-CAM: every non-empty subset of the 8 byte fields x 9 states, 13 object-identifier shapes x 43 parameter ids; Active Authentication: 11 algorithm shapes x 7 nonces x 15 signatures on RSA, ECDSA and the full session; each bundle through NewChipAuthEvidenceFromCbor + the evidence verifier directly and through verifier.Verify")
+	c.SecBound(sec, "Chip Authentication: full product of 4 fields x {genuine, absent, empty, null, +1 byte, leading zero, all-zero, all-FF, 1024, 1025 bytes} (+ counter one byte longer than the cipher block, one-byte counter) on sessions ca and full; width sweep: every byte field of every mechanism x every length 0..2L+2 x {01 00.., FF..} with the rest genuine on Chip Authentication over 3DES / AES-128 / AES-192 / AES-256 sessions, PACE-CAM and both AA sessions; PACE-CAM: every non-empty subset of the 8 byte fields x 9 states, 13 object-identifier shapes x 43 parameter ids; Active Authentication: 11 algorithm shapes x 7 nonces x 15 signatures on RSA, ECDSA and the full session; each bundle through NewChipAuthEvidenceFromCbor + the evidence verifier directly and through verifier.Verify")
 }
 
 // withoutFiles: documents lacking every subset of the files the evidence refers to.
